@@ -7,13 +7,13 @@ logs = sys.argv[1:]
 results = {}   # (ID,k) -> {check: exit}
 for lg in logs:
     for line in open(lg):
-        m = re.match(r"== /tmp/seeded-(C\d+)/patch(\d)\.diff vs (C\d+): exit (\d+)", line)
+        m = re.match(r"== /tmp/seeded-(C\d+)/patch(\d+)\.diff vs (C\d+): exit (\d+)", line)
         if m:
             results.setdefault((m.group(1), m.group(2)), {})[m.group(3)] = int(m.group(4))
 verify = {}
 for f in glob.glob('/tmp/verify-C*.log')+glob.glob('/tmp/verify2-C*.log')+glob.glob('/tmp/verify3-C*.log')+glob.glob('/tmp/verify4-C*.log'):
     for line in open(f):
-        m = re.match(r"(C\d+)/(\d): tests-with-patch: (\d+) passed (\d+) failed; demo exit with patch: (\d+); demo exit without: (\d+)", line)
+        m = re.match(r"(C\d+)/(\d+): tests-with-patch: (\d+) passed (\d+) failed; demo exit with patch: (\d+); demo exit without: (\d+)", line)
         if m:
             verify[(m.group(1), m.group(2))] = dict(tests_passed=int(m.group(3)), tests_failed=int(m.group(4)), demo_exit_with_patch=int(m.group(5)), demo_exit_without=int(m.group(6)))
 rows = []
